@@ -141,6 +141,17 @@ def make_variants(rng, base: pg.Pkg, m: pg.Mod):
             p.modules.append(nb)
             variants.append((f"add-neighbour-module-{tag}", p))
     variants.append(("add-module-reusing-names", add_module("aa_reuse", ("pk",), True)))
+    # ... and modules whose classes of those names are exception hierarchies (analysed before / after M)
+    for nm_ in ("aa_errors", "zz_errors"):
+        p = copy.deepcopy(base)
+        decls = []
+        base_names = [b for d in m.decls if isinstance(d, pg.Cls) for b in d.bases if b.isidentifier()]
+        for c in dict.fromkeys([*base_names, *reuse_cls]):
+            decls.append(pg.Cls(c, bases=["Exception"], methods=[pg.Fn("explain", [], "str", role="inst")]))
+            decls.append(pg.Cls(f"Sub{c}Failure", bases=[c]))
+        if decls:
+            p.modules.append(pg.Mod(("pk",), nm_, decls=decls))
+            variants.append((f"add-module-reusing-names-as-exceptions-{nm_[:2]}", p))
     variants.append(("add-module-reusing-names-in-new-package", add_module("reuse_mod", ("pk", "zz_newpkg"), True)))
     if removable:
         x = rng.choice(removable)
